@@ -24,8 +24,11 @@ N = {"quick": 9000, "thorough": 270000}
 KINDS = ["orth", "iso", "perm", "zeros", "span"]
 
 
+WIDE = {"quick": 150, "thorough": 3000}
+
+
 def shards(tier, seed):
-    return split_shards("random", N[tier], 16 if tier == "quick" else 32)
+    return split_shards("random", N[tier], 14 if tier == "quick" else 30) + split_shards("wide", WIDE[tier], 2 if tier == "quick" else 6)
 
 
 def requirements(tier):
@@ -37,7 +40,7 @@ def requirements(tier):
     for name in E.ALL:
         r[f"judged:{name}/perm"] = 15
         r[f"judged:{name}/zeros"] = 15
-    r.update({"w_rank_deficient_judged": 200, "w_float32": 500, "rng_recorder_hits": 1})
+    r.update({"w_rank_deficient_judged": 200, "w_float32": 500, "rng_recorder_hits": 1, "judged_many_zero_columns": 60})
     return r
 
 
@@ -61,6 +64,19 @@ def gen_case(rng, i):
     else:
         kind = ["perm", "zeros"][int(rng.integers(2))]
     return {"J": J.tolist(), "class": klass, "dtype": dname, "agg": desc, "kind": kind, "tseed": int(rng.integers(1 << 30)), "seed": int(rng.integers(1 << 20))}
+
+
+def gen_wide(rng, i):
+    """Parameters that influence nothing, in realistic numbers: 1e3 .. 1e5 all-zero columns appended (a network has many parameters)."""
+    name = E.ALL[i % len(E.ALL)]
+    dname = "float32" if rng.random() < 0.3 else "float64"
+    m = int(rng.integers(3, 6))
+    J = M.well_conditioned(rng, m, int(rng.integers(m, m + 4)), cond=float(10 ** rng.uniform(0.5, 2)), scale=float(10 ** rng.uniform(-1, 1)))
+    desc = E.config(rng, name, m, dname)
+    if desc is None:
+        return None
+    return {"J": J.tolist(), "class": "well_conditioned", "dtype": dname, "agg": desc, "kind": "zeros_many", "k": [1000, 20000, 100000][int(rng.integers(3))],
+            "tseed": int(rng.integers(1 << 30)), "seed": int(rng.integers(1 << 20))}
 
 
 def check_case(case, ctx):
@@ -132,7 +148,7 @@ def check_case(case, ctx):
             if name == "GradDrop" and rec1["rand"]:
                 script = {"rand": [rec1["rand"][0][torch.tensor(perm)]]}
         else:
-            k = int(trng.integers(1, 4))
+            k = int(trng.integers(1, 4)) if kind == "zeros" else case["k"]
             J2_64 = np.concatenate([J, np.zeros((m, k))], axis=1)
             expect = np.concatenate([out1, np.zeros(k)])
             if name == "GradDrop" and rec1["rand"]:
@@ -160,15 +176,18 @@ def check_case(case, ctx):
         if script is not None and rec2["underflow"]:
             ctx.not_judged("GradDrop:script_not_consumed")
             return
-        exact_kind = kind in ("perm", "zeros") and name in ("TrimmedMean", "Mean", "Sum", "Constant", "GradDrop", "Random")
+        exact_kind = kind in ("perm", "zeros", "zeros_many") and name in ("TrimmedMean", "Mean", "Sum", "Constant", "GradDrop", "Random")
         t = 16 * eps * np.sqrt(m) if exact_kind else E.tau(name, dname)
         err = float(np.linalg.norm(out2 - expect))
         ctx.maximum(f"{kind}_{name}_{dname}", err / scale)
         if not err <= t * scale:
             ctx.violation({"orth": "not_equivariant_under_orthogonal_change_of_coordinates", "iso": "not_equivariant_under_isometry",
-                           "perm": "depends_on_column_order", "zeros": "zero_columns_change_the_result"}[kind], case,
-                          {"A(J)_transformed": expect.tolist(), "A(transformed J)": out2.tolist(), "error_over_scale": err / scale, "scale": scale})
-    ctx.count(f"judged:{name}/{kind}")
+                           "perm": "depends_on_column_order", "zeros": "zero_columns_change_the_result", "zeros_many": "zero_columns_change_the_result"}[kind],
+                          case if kind != "zeros_many" else {**case, "note": f"{case['k']} zero columns appended"},
+                          {"A(J)_transformed": expect[:n + 3].tolist(), "A(transformed J)": out2[:n + 3].tolist(), "error_over_scale": err / scale, "scale": scale})
+    ctx.count(f"judged:{name}/{kind}" if kind != "zeros_many" else "judged_many_zero_columns")
+    if kind == "zeros_many":
+        ctx.klass(f"zero_columns={case['k']}")
     if rank < min(m, n):
         ctx.count("w_rank_deficient_judged")
     if dname == "float32":
@@ -179,7 +198,7 @@ def check_case(case, ctx):
 
 
 def run_shard(shard, ctx):
-    run_cases(ctx, shard_rng(ctx.seed, ID, ctx.shard_index), shard["n"], gen_case, check_case)
+    run_cases(ctx, shard_rng(ctx.seed, ID, ctx.shard_index), shard["n"], gen_wide if shard["kind"] == "wide" else gen_case, check_case)
 
 
 def replay(case, ctx):
